@@ -69,7 +69,7 @@ def run(chk, replay=None):
     try:
         # ---- enumerated cases (model -> code)
         c = vlib.cfg("C20_cases_%s.cfg" % tier, SEED=seed, OCTETS=vlib.intset(range(256)), PREFIXES=vlib.intset(range(33)))
-        vlib.replay_cases(chk, "C20Cases", c, "c20.cases", "cases", opts={"revpass": 1})
+        vlib.replay_cases(chk, "C20Cases", c, "c20.cases", "cases", opts={"revpass": 1, "arena": 1})
         chk.cov["exhaustive"] = True
         # ---- recorded random calls (code -> model)
         trace, res = os.path.join(d, "trace.ndjson"), os.path.join(d, "rec.res")
